@@ -4,6 +4,7 @@ import XeofsProofs.Lemmas.Recon
 import XeofsProofs.Lemmas.EckartYoung
 import XeofsProofs.Lemmas.Sign
 import XeofsModel.Generated.Facts
+import XeofsProofs.Lemmas.HilbertModel
 /-!
 # C01 — EOF-type modes are the exact eigen-decomposition of the preprocessed data
 
@@ -143,5 +144,19 @@ theorem src_eeof_inner_centres : Gen.eeofInnerEOF.lookup "center" = some "self._
 
 /-- source obligation: the decomposition the theorems take as an oracle with specification `IsSVD` is numpy's SVD of the matrix itself -/
 theorem src_exact_solver_is_svd : Gen.decomposerSolverFunctions.head? = some "np.linalg.svd" := by decide
+
+/-! ### HilbertEOF: what is decomposed — on the executable model `XM.padExp` / `XM.hilbertCutRecentre` -/
+
+/-- the Hilbert-augmented data have the (preprocessed) input as their real part, whatever the padding did at the ends: the
+analytic signal of the padded series is cut back to the rows of the input (oracle specification: its real part is its argument) -/
+theorem model_hilbert_real_part {n p : ℕ} (y : XM.Mat n p ℝ) (c0 c1 : Fin p → ℝ) (decay : ℝ) (hn : 0 < n) (H : XM.Mat (3 * n) p 𝕜)
+    (hH : ∀ i f, RCLike.re (H.get i f) = (XM.padExp y c0 c1 decay hn).get i f) (t : Fin n) (f : Fin p) :
+    RCLike.re ((XM.hilbertCutRecentre (ρ := ℝ) H).get t f) = y.get t f :=
+  XP.HilbertM.cut_real_part y c0 c1 decay hn H hH t f
+
+/-- … and an imaginary part with zero mean per feature, so the decomposed matrix is centred whenever the input is -/
+theorem model_hilbert_imag_centred {n p : ℕ} (H : XM.Mat (3 * n) p 𝕜) (hn : 0 < n) (f : Fin p) :
+    ∑ t : Fin n, RCLike.im ((XM.hilbertCutRecentre (ρ := ℝ) H).get t f) = 0 :=
+  XP.HilbertM.cut_imag_centred H hn f
 
 end C01
